@@ -45,12 +45,12 @@ def run_worker(job):
     env = dict(os.environ)
     env["PYTHONHASHSEED"] = str(hashseed)
     env["ADCGEN_LOG_LEVEL"] = "ERROR"
-    pp = ["/verif"]
+    pp = [driver.ROOT]
     if pkgdir:
         pp.insert(0, pkgdir)
     env["PYTHONPATH"] = ":".join(pp)
     try:
-        p = subprocess.run([PY, "-W", "ignore", "/verif/vlib/c19_worker.py", req, str(hseed), str(hlen)],
+        p = subprocess.run([PY, "-W", "ignore", os.path.join(driver.ROOT, "vlib", "c19_worker.py"), req, str(hseed), str(hlen)],
                            capture_output=True, text=True, env=env, timeout=1500)
     except subprocess.TimeoutExpired:
         return job, None, "timeout"
